@@ -320,7 +320,13 @@ func newPathFromIPRouteMessage(logger *slog.Logger, m *zebra.Message, version ui
 	switch family {
 	case bgp.RF_IPv4_UC:
 		if len(body.Nexthops) > 0 {
-			pa, _ := bgp.NewPathAttributeNextHop(netip.MustParseAddr(body.Nexthops[0].Gate.String()))
+			gate := body.Nexthops[0].Gate
+			if !gate.IsValid() {
+				// interface-only next hop: no gateway, the route is
+				// advertised with the speaker's own address
+				gate = netip.IPv4Unspecified()
+			}
+			pa, _ := bgp.NewPathAttributeNextHop(gate)
 			pattr = append(pattr, pa)
 		}
 	case bgp.RF_IPv6_UC:
